@@ -9,6 +9,16 @@ unit may serve several properties.
 U1_WRITE = ["U1.write", "U1.end", "U1.flush", "U1.new"]
 
 PROPS = {
+    "dev-k4v": {"title": "dev", "kani": [("k4_values", None)], "verus": []},
+    "dev-k2": {"title": "dev", "kani": [("k2_commands", None)], "verus": []},
+    "dev-k3": {"title": "dev", "kani": [("k3_decode", None)], "verus": []},
+    "dev-k5": {"title": "dev", "kani": [("k5_errors", None)], "verus": []},
+    "dev-k6": {"title": "dev", "kani": [("k6_deps", None)], "verus": []},
+    "C01": {
+        "title": "Inbound packets are reassembled exactly under every transport chunking",
+        "kani": [("k1_frames", None)],
+        "verus": [("u1_packet", ["U1.next"])],
+    },
     "C04": {
         "title": "Outbound bytes are well-framed, including messages of 16 MiB and more",
         "kani": [],
